@@ -99,6 +99,37 @@ def leaf_contract(ctx, prog):
                    {"returns": show(rv)[:40]}, nontrivial=True)
 
 
+def membership_contract(ctx, prog):
+    """X2m: the keep-list test answers yes exactly for the members (it decides which descriptors survive the close-all loop)"""
+    if "fd_in_set" not in prog.funcs:
+        return
+    F = prog.fn("fd_in_set")
+    from ..absint import State
+    p = {x["name"]: ("v", F.gdid(x["did"])) for x in F.params}
+    if not {"fd", "fd_set", "size"} <= set(p):
+        return
+    base = ("g", "keep_list_under_test")
+    for fd, want in ((5, 1), (7, 1), (6, 0), (1029, 0)):
+        I = new_interp(prog)
+        I.widen = False
+        I.K = sorted(set(I.K) | {5, 6, 7, 1029})
+        I.Kset = set(I.K)
+        I.TOP_INT = frozenset(I.K) | {"NEG", "POS"}
+        st = State()
+        st.mon["nofail"] = True
+        st.mem[p["fd_set"]] = fs(("addr", ("i", base, 0)))
+        st.mem[("i", base, 0)] = fs(5)
+        st.mem[("i", base, 1)] = fs(7)
+        st.mem[p["size"]] = fs(2)
+        st.mem[p["fd"]] = fs(fd)
+        res = I.run(F, [st])
+        got = sorted({show(rv) for s_, rv in res.exits})
+        unknown = sorted({e[3] for e in res.events if e[0] == "unknown-call"})
+        ctx.ob("C11.X2m", "fd_in_set(%d, {5, 7})" % fd, "the keep-list test says yes for a member and no for any other number (an inexact test "
+               "lets foreign descriptors survive the close-all loop)", bool(res.exits) and all(rv == fs(want) for s_, rv in res.exits),
+               {"answers": got, "expected": want, "calls_without_model": unknown}, nontrivial=True)
+
+
 def closeall_rules(ctx, prog):
     G = prog.fn("get_max_fd")
     # --- the close-all loop: the one loop of the forking code that closes descriptors (it may live in a helper)
@@ -109,8 +140,19 @@ def closeall_rules(ctx, prog):
         for n in Fx.walk():
             if n["k"] == "ForStmt" and any(x["k"] == "CallExpr" and x.get("callee") in ("handle_destroy", "close") for x in walk_nodes(n)):
                 found.append((Fx, n))
+    if not found:
+        # the forking code still asks for the descriptor limit but closes nothing in any loop, and uses no range-closing primitive
+        # either: the inherited descriptors are simply not closed (e.g. the close sits inside an ASSERT() that this
+        # configuration compiles out).  A range-closing primitive would be a mechanism this rule does not know: no verdict.
+        other = [c for Fx in prog.funcs_all if Fx.file.endswith("process.posix.c") for nm in ("close_range", "closefrom") for c in Fx.calls(nm)]
+        users = [Fx.name for Fx in prog.funcs_all if Fx.file.endswith("process.posix.c") and [x for x in Fx.calls("get_max_fd")]]
+        if users and not other:
+            ctx.ob("C11.X2", "%s: close-all loop" % users[0], "the forked child closes every descriptor up to the limit that is not in its keep "
+                   "list", False, {"found": "no loop in the forking code closes a descriptor in this build configuration (NDEBUG)"}, nontrivial=True)
+            return
     if len(found) != 1:
         raise AnalysisBroken("C11.X2: expected one close-all loop in process.posix.c, found %d" % len(found))
+    membership_contract(ctx, prog)
     F, loop = found[0]
     init = F.nodes[loop["init"]]
     cond = strip(F.nodes[loop["cond"]])
